@@ -714,6 +714,10 @@ def run(ctx):
         ctx.part.spaces[f"{typ}-pairs:{path}{rk}"]["cardinality"] = n * n
         expected += n * n * len(ops_for(typ, path))
         law_pass(ctx, rows, typ, path, rk, path_alpha(alpha, typ, path))
+    from .. import pairhist
+    expected += pairhist.run(ctx, __name__)
+    ctx.rule += (" Pair histories: every comparison of a %d-term alphabet (well-typed ones beside comparisons of values of different types, both runners) alone and after "
+                 "every other one in the same process, started from the pristine process state; its answer must be the reference answer and the answer it gives alone." % len(ph_terms()))
     skipped = ctx.part.extra.get("premise_skipped_cases", 0)
     ctx.coverage_extra["expected_cases"] = expected
     if ctx.part.evaluations + skipped != expected:
@@ -726,9 +730,49 @@ def _dispatch(task):
     return validate_shard(task) if task[0] == "validate" else pair_shard(task)
 
 
+# ---- pair histories: a comparison alone and after every other comparison in one process (mc/pairhist.py) ----------
+# The alphabet holds well-typed comparisons (whose reference answer is known) next to comparisons of values of
+# different types (on which the property is silent): a memo, a dispatch table or a cached decision filled in by
+# the one must not change the answer of the other.
+PH_TEXTS = [
+    ("0.0 == 0.0", True), ("1.5 == 2.5", False), ("0.0 != 0.0", False), ("1.5 < 2.5", True), ("1 == 1", True), ("2 == 3", False), ("1 < 2", True), ("2 != 3", True),
+    ("1u == 1u", True), ("1u < 2u", True), ('"a" == "a"', True), ('"a" < "b"', True), ('b"a" == b"a"', True), ("true == true", True), ("false < true", True),
+    ("null == null", True), ("[1] == [1]", True), ("[0.0] == [0.0]", True), ('{"a": 1} == {"a": 1}', True), ('{"a": 0.5} != {"a": 0.5}', False),
+    ('timestamp("2020-01-01T00:00:00Z") == timestamp("2020-01-01T01:00:00+01:00")', True), ('duration("60s") == duration("1m")', True),
+    ("1 == 2.5", None), ("2.5 == 1", None), ("1 != 2.5", None), ("1 < 2.5", None), ("2.5 < 1", None), ("1 == 1u", None), ("1u == 1", None), ('"a" == 1', None), ('1 == "a"', None),
+    ('b"a" == "a"', None), ("true == 1", None), ("1 == true", None), ("null == 1", None), ("1 == null", None), ("[1] == [1.0]", None), ('{"a": 1} == {"a": 1.0}', None),
+    ("[1] == 1", None), ('timestamp("2020-01-01T00:00:00Z") == duration("1s")', None),
+]
+
+
+def ph_terms():
+    return [[rk, text] for rk in ("I", "C") for text, _ in PH_TEXTS]
+
+
+def ph_step(term):
+    from .. import pairhist
+    return pairhist.cel_step(term[0], term[1])
+
+
+def ph_expected(term):
+    exp = dict(PH_TEXTS)[term[1]]
+    return None if exp is None else ("V", "bool", exp)
+
+
+def ph_label(term):
+    return f"[{term[0]}] {term[1]}"
+
+
+def ph_outcome_label(o):
+    return outcome.label(o) if o and o[0] in "VEPX" else str(o)
+
+
 # ------------------------------------------------------------------------------------------------
 def replay(w):
     wit = w["witness"]
+    if wit.get("space") == "pairhist":
+        from .. import pairhist
+        return pairhist.replay(w)
     typ, path, rk = wit["type"], wit["path"], wit["runner"]
     cells = Cells(rk, path)
     print("replaying", {k: v for k, v in wit.items() if k not in ("a", "b", "vals")})
